@@ -62,7 +62,9 @@ func verifUnmarshal(data []byte, v interface{}) error {
 	case 1:
 		return errVerifJSON
 	case 3:
-		*mem = *verifSaved // inverse of Marshal on exported fields (contract of encoding/json)
+		// what encoding/json carries from the saved value: a deep copy of the exported, untagged
+		// fields; everything else comes back as its zero value (contract of encoding/json)
+		verifJSONCopy(mem, verifSaved)
 		return nil
 	}
 	mem.ShardNo = verifNondetInt()
@@ -142,9 +144,6 @@ func VerifV9CacheRoundTrip() {
 	}
 	m.insert(id, addr, t)
 	before, okb := m.retrieve(id2, addr2)
-	// structural precondition of the JSON model: nothing of the saved structure is hidden
-	// from encoding/json (unexported or json:"-" fields would silently not be saved)
-	verifAssert(verifJSONTransparent(memCacheDisk{}), "every data-carrying field of the cache file structure is saved by encoding/json")
 	err := m.Dump("cache.file")
 	verifAssert(err == nil, "Dump succeeds when the file can be written")
 	verifAssert(verifSavedName == "cache.file", "Dump writes the file it was asked to write")
